@@ -243,7 +243,7 @@ def seeded_jobs(ctx):
             # them (sampled 400 combinations); makeevenCIJ is left out - it mixes K into unsigned
             # arithmetic and is not claimed for such K
             kw["ntype"] = rng.choice(["np16", "npu16", "np8", "npu8"])
-            kw["ktype"] = rng.choice(["int", "int", "np16", "npu16", "np8", "npu8", "np32"])
+            kw["ktype"] = rng.choice(["int", "int", "np32"])      # K stays wide: see DESIGN 0.4 (false alarm of the thorough tier)
         if kw["fn"] == "makerandCIJdegreesfixed":
             kw["dtype"] = rng.choice(["int64", "int64", "int32", "float64"])
             kw["layout"] = rng.choice(["C", "C", "stride"])
@@ -270,7 +270,7 @@ def seeded_jobs(ctx):
         m = n * (n - 1) // (2 if fn == "makerandCIJ_und" else 1)
         add(fn=fn, n=n, k=rng.choice([rng.randint(0, m), rng.randint(m // 2, m), m]), src="seeded-narrow")
         jobs[-1]["ntype"] = ty
-        jobs[-1]["ktype"] = rng.choice(["int", "np32", ty])
+        jobs[-1]["ktype"] = rng.choice(["int", "np32"])
     # ring lattices: every feasible K for n <= 9 (12), random beyond
     for n in range(1, 10 if q else 13):
         for k in range(n * (n - 1) + 1):
@@ -377,7 +377,7 @@ def scale_jobs(ctx):
             # them (sampled 400 combinations); makeevenCIJ is left out - it mixes K into unsigned
             # arithmetic and is not claimed for such K
             kw["ntype"] = rng.choice(["np16", "npu16", "np8", "npu8"])
-            kw["ktype"] = rng.choice(["int", "int", "np16", "npu16", "np8", "npu8", "np32"])
+            kw["ktype"] = rng.choice(["int", "int", "np32"])      # K stays wide: see DESIGN 0.4 (false alarm of the thorough tier)
         if kw["fn"] == "makerandCIJdegreesfixed":
             top = max(kw["inv"] + kw["outv"] + [0])
             kw["dtype"] = rng.choice(["int64", "int32", "float64", "int16"] + (["uint8"] if top <= 255 else []))
